@@ -680,6 +680,14 @@ M('c17-aconf-close-check-late', 'C17', 'src/extensions/qaconf.c',
 M('c11-size-out-unguarded', 'C11', 'src/containers/qlist.c',
   "    if (size != NULL)\n        *size = list->datasum;\n    qlist_unlock(list);", "    *size = list->datasum;\n    qlist_unlock(list);",
   'NC1', 'qlist_toarray', 'optional out-parameter written without its NULL test on the success path (tested on the empty path)')
+M('c19-strtok-static-last', 'C19', 'src/utilities/qstring.c',
+  "char *qstrtok(char *str, const char *delimiters, char *retstop, int *offset) {\n",
+  "char *qstrtok(char *str, const char *delimiters, char *retstop, int *offset) {\n    static const char *lastdelim = NULL;\n    if (lastdelim != delimiters) lastdelim = delimiters;\n",
+  'Q5', 'qstrtok', 'a function-static variable written by the tokenizer')
+M('c20-argc-narrowed', 'C20', 'src/extensions/qaconf.c',
+  "                    int numtake = option->take & QAC_TAKEALL;\n                    if (numtake != QAC_TAKEALL\n                            && numtake != (cbdata->argc - 1)) {",
+  "                    int numtake = option->take & QAC_TAKEALL;\n                    uint8_t numargs = cbdata->argc - 1;\n                    if (numtake != QAC_TAKEALL\n                            && numtake != numargs) {",
+  'WID3', '_parse_inline', 'the argument count is reduced modulo 256 before it is compared')
 M('c11-borrowed-name-freed', 'C11', 'src/containers/qhashtbl.c',
   "    char *dupname = strdup(name);\n    void *dupdata = malloc(size);",
   "    char *dupname = (obj != NULL) ? obj->name : strdup(name);\n    void *dupdata = malloc(size);",
